@@ -101,7 +101,9 @@ Tracked(s, a, d) == Has(s.bal, a) /\ Has(s.bal[a], d)
 (* Permissioned channel hook (types/hook).  s.chan[c] = [seq, admin]:       *)
 (*   seq = 0 : channel does not exist;  seq = 1 : fresh;  seq > 1 : in use  *)
 (*   admin = "" : no relayer admin registered                               *)
-MetaChans(m) == IF m.cls = "perm" THEN m.chs ELSE << >>   \* only well-formed metadata lists channels
+(* only well-formed metadata lists channels; class "incomplete" is well-formed but has one more entry without a port id,  *)
+(* i.e. it also lists a channel that does not exist ("nochan" is never a key of s.chan)                                    *)
+MetaChans(m) == IF m.cls = "perm" THEN m.chs ELSE IF m.cls = "incomplete" THEN Append(m.chs, "nochan") ELSE << >>
 ChanFresh(ch, c)   == Has(ch, c) /\ ch[c].seq = 1 /\ ch[c].admin = ""
 RegisterAll(ch, cs, who, skipOwn) ==
   \* returns [ok, chan]; channels are processed in order, a channel may be listed twice
